@@ -28,7 +28,7 @@ CHECKS = {
             "DESIGN.md §4 C04", "E1-BFS"),
     "C05": ("model_checking",
             "stateless preemption-bounded exhaustive exploration of interleavings under a cooperative scheduler hooked into sync/atomic (E2), plus a free-running race-detector pass over the same exhaustively enumerated scenario matrix (E4)",
-            "Scenario matrix: 5 request bodies x 42 admin/background bodies (incl. the DHCP static-lease handlers, a DHCP client's DISCOVER+REQUEST and a request answered from the lease table) (with scheduling points after lock releases), every background body x every admin body, three-party scenarios around the list refresh, read x write admin pairs on the query log and the statistics (thorough: + request x background x admin triples), a deterministic probe that what the client storage hands out is not changed by later updates, and a phase that queues several set_rules calls behind a held engine-rebuild worker and demands the last one's engine (the sequential history phases on the same assembly belong to C01), on a full assembly wired as in package home (server, filter with file lists, client storage, a real DHCP server, query log, statistics on bbolt). E2 owns every Mutex/RWMutex(writer preference)/WaitGroup/Once/atomic operation of the rewritten AGH packages and bbolt and explores all schedules with <=1 (quick) / <=2 (thorough) preemptions: no panic, deadlock or livelock, well-formed response, operations succeed. E4 runs every scenario in both start orders with staggered starts under -race.",
+            "Scenario matrix: 5 request bodies x 40 admin/background bodies (incl. the DHCP static-lease handlers, a DHCP client's DISCOVER+REQUEST and a request answered from the lease table) (with scheduling points after lock releases), every background body x every admin body, three-party scenarios around the list refresh, read x write admin pairs on the query log and the statistics (thorough: + request x background x admin triples), a deterministic probe that what the client storage hands out is not changed by later updates, and a phase that queues several set_rules calls behind a held engine-rebuild worker and demands the last one's engine (the sequential history phases on the same assembly belong to C01), on a full assembly wired as in package home (server, filter with file lists, client storage, a real DHCP server, query log, statistics on bbolt). E2 owns every Mutex/RWMutex(writer preference)/WaitGroup/Once/atomic operation of the rewritten AGH packages and bbolt and explores all schedules with <=1 (quick) / <=2 (thorough) preemptions: no panic, deadlock or livelock, well-formed response, operations succeed. E4 runs every scenario in both start orders with staggered starts under -race.",
             "data races are decided by the race detector's happens-before analysis of observed free runs (order-dependent), not by schedule enumeration; goroutines the code spawns itself are replaced by explicit bodies; DHCPv6 operations, dhcp/set_config and restart-type DNS settings are not in the matrix.",
             "DESIGN.md §2.3, §2.4, §4 C05", "E2+E4"),
     "C06": ("exploration",
